@@ -32,6 +32,24 @@ def spec_ok(addr, p, got):
     return len(got) == len(set(got)) and len(got) == bc - net - 1 and all(net < x < bc for x in got)
 
 
+def entry_word(w):
+    """a configured subnet entry as the model's [entry]: v4 a p | v6 p128 | bad (an independent reading of the CIDR text)"""
+    import ipaddress
+    try:
+        n = ipaddress.ip_network(w, strict=False)
+        if "/" not in w:
+            return "bad"
+    except ValueError:
+        return "bad"
+    if n.version == 4:
+        a = int(ipaddress.ip_address(w.split("/")[0]))
+        return "v4 %d %d" % (a, n.prefixlen)
+    a6 = ipaddress.ip_address(w.split("/")[0])
+    if a6.ipv4_mapped is not None and n.prefixlen >= 96:
+        return "v4 %d %d" % (int(a6.ipv4_mapped), n.prefixlen - 96)
+    return "v6 %d" % n.prefixlen
+
+
 def run(tier, seed, replay=None):
     res = vlib.Result(PID, tier, seed)
     res.assumptions = vlib.TRUSTED_COMMON + [
@@ -119,10 +137,14 @@ def run(tier, seed, replay=None):
             if i % 3 == 2:                       # one entry as IPv4-mapped CIDR, plus entries autoDiscover skips
                 a, p = nets[-1]
                 words[-1] = "::ffff:%s/%d" % (ip_s(a), 96 + p)
-                words.insert(rnd.randrange(0, len(words) + 1), rnd.choice(["-", "bogus", "::1/128", "10.0.0.1"]))
+                words.insert(rnd.randrange(0, len(words) + 1), rnd.choice(["-", "bogus", "10.0.0.1", "300.1.1.0/24", "127.0.0.0/33"]))
+                # and a genuine IPv6 network, which autoDiscover refuses: it enumerates nothing, so it adds nothing to the estimate
+                v6 = ["::1/128", "fd00::1:0/120", "fe80::/64", "fd00::10/124", "2001:db8::/32", "fd00::ffff:0:0/97"]
+                words.insert(rnd.randrange(0, len(words) + 1), v6[(i // 3 + seed) % len(v6)])
             limit = rnd.choice([1, 3, 16, 64, 5000])
+            # the model reads the whole configured list, refused and malformed entries included (Discover/Entries.v)
             cases.append(("disc %d %s" % (limit, ",".join(words)),
-                          ["all " + " ".join("%d %d" % n for n in nets)], "disc", len(nets), limit))
+                          ["ents " + " ".join(entry_word(w) for w in words)], "disc", len(nets), limit))
         # slow readers: each probe takes well over twice the probe timeout though no single step exceeds it; a run that nobody
         # cancels still enumerates every host (one worker, so the probes add up)
         a = (127 << 24) | (rnd.randrange(1, 255) << 16) | (rnd.randrange(0, 256) << 8) | (rnd.randrange(0, 32) * 8)
@@ -172,6 +194,24 @@ def run(tier, seed, replay=None):
     oreq = [q for c in cases for q in c[1]]
     orc, oout = vlib.run_oracle("c16", "\n".join(oreq) + "\n", timeout=900)
     olines = oout.split("\n")
+    if rc != 0 and len(go_lines) < len(cases):
+        # the process died while serving some request (answers are written at the end, so none is left): bisect for a request
+        # that kills it when run alone; that request is the witness
+        part = list(cases)
+        for _ in range(14):
+            if len(part) <= 1:
+                break
+            half = part[:len(part) // 2]
+            rc2, l2, _ = vlib.run_harness(exe, "TestVerifC16", "\n".join(c[0] for c in half) + "\n", timeout=600, tag="_bis")
+            part = half if (rc2 != 0 and len(l2) < len(half)) else part[len(part) // 2:]
+        cul = part[0]
+        rc2, l2, log2 = vlib.run_harness(exe, "TestVerifC16", cul[0] + "\n", timeout=300, tag="_bis")
+        if rc2 != 0 and len(l2) < 1:
+            m = [ln for ln in log2.split("\n") if ln.startswith(("panic:", "fatal error:"))]
+            res.violation("process-crash:%s" % cul[2], "the process running discovery dies on the request '%s' (%s); every other run of this process is lost with it"
+                          % (cul[0][:300], (m[0] if m else "rc=%s" % rc2)[:200]),
+                          dict(kind="correspondence", correspondence="C16/ipGenerator-vs-ip_gen", cases=[list(cul)], observed=log2[-2500:], expected="an answer"))
+            return res.finish()
     if rc != 0 or len(go_lines) != len(cases):
         res.violation("harness-run", "Go harness failed (rc=%s, %d/%d answers): %s" % (rc, len(go_lines), len(cases), glog[-1500:]),
                       dict(kind="harness", log=glog[-3000:]), False)
